@@ -587,6 +587,104 @@ def _ref_nested(leaves, doappend, order, gmap):
     return combine(top)
 
 
+ROWSETS16 = [["a", "b", "c"], ["b", "c", "d"], ["c", "a", "e"], ["a", "b", "c"]]
+
+
+def make_dr_labels(labels_in):
+    from pyyeti import cla
+
+    drdefs = cla.DR_Def(dict(se=0, uf_reds=(1, 1, 1, 1)))
+
+    @cla.DR_Def.addcat
+    def _():
+        name = "cat"
+        desc = "verif category"
+        units = "N"
+        labels = list(labels_in)
+        drms = {"drm": np.eye(3)}
+        drfunc = "sol.d"
+        drdefs.add(**locals())
+
+    DR = cla.DR_Event()
+    DR.add(None, drdefs)
+    return DR
+
+
+def check_form_rows(ids, with_x, doappend):
+    """events whose row label sets differ: form_extreme expands them to the union of labels (documented); every
+    label of the union must appear exactly once and carry the envelope over the events that have it"""
+    from pyyeti import cla
+
+    msgs = []
+    results = cla.DR_Results()
+    per_event = {}
+    for ei in ids:
+        labels = ROWSETS16[ei]
+        DR = make_dr_labels(labels)
+        r = DR.prepare_results("mission", "E%d" % ei)
+        ext = np.array(EVTAB[ei], dtype=float)
+        x = ext * 0 + 10.0 * (ei + 1) + np.arange(2)[None, :] + 0.1 * np.arange(3)[:, None] if with_x else None
+        r.add_maxmin("cat", ext, ["E%dM%d" % (ei, i) for i in range(3)], ["E%dm%d" % (ei, i) for i in range(3)], x, "Time")
+        results["E%d" % ei] = r
+        per_event["E%d" % ei] = (labels, ext, x, list(r["cat"].maxcase), list(r["cat"].mincase))
+    try:
+        results.form_extreme("Env", doappend=doappend)
+    except Exception as e:  # noqa
+        return ["form_extreme over events with different row labels raised %r" % (e,)]
+    ex = results["extreme"]["cat"]
+    got_labels = list(ex.drminfo.labels)
+    union = []
+    for k in per_event:
+        for lab in per_event[k][0]:
+            if lab not in union:
+                union.append(lab)
+    if sorted(got_labels) != sorted(union) or len(set(got_labels)) != len(got_labels):
+        return ["form_extreme: row labels %s are not the union of the event labels %s" % (got_labels, union)]
+    for lab in union:
+        gi = got_labels.index(lab)
+        for col, better in ((0, lambda a, b: a > b), (1, lambda a, b: a < b)):
+            best = None
+            for k, (labels, ext, x, ml, nl) in per_event.items():
+                if lab not in labels:
+                    continue
+                i = labels.index(lab)
+                v = ext[i, col]
+                if best is None or (math.isnan(best[0]) and not math.isnan(v)) or (not math.isnan(v) and not math.isnan(best[0]) and better(v, best[0])):
+                    low = (ml if col == 0 else nl)[i]
+                    lbl = k if doappend in (0, 2) else (k + "," + low if doappend == 1 else low)
+                    best = (v, NAN if x is None else x[i, col], lbl)
+            g = ex.ext[gi, col]
+            if not ((math.isnan(g) and math.isnan(best[0])) or g == best[0]):
+                msgs.append("form_extreme (different row labels): row %r column %d is %r, envelope of the events that have this row is %r" % (lab, col, g, best[0]))
+                continue
+            glab = (ex.maxcase if col == 0 else ex.mincase)[gi]
+            if not math.isnan(best[0]) and glab != best[2]:
+                msgs.append("form_extreme (different row labels): row %r column %d is labelled %r, expected %r" % (lab, col, glab, best[2]))
+            if with_x and not math.isnan(best[0]) and not (ex.ext_x is not None and ex.ext_x[gi, col] == best[1]):
+                msgs.append("form_extreme (different row labels): abscissa of row %r column %d is %r, expected %r" % (lab, col, None if ex.ext_x is None else ex.ext_x[gi, col], best[1]))
+    # the events themselves must not have been modified by the expansion
+    for k, (labels, ext, x, ml, nl) in per_event.items():
+        c = results[k]["cat"]
+        if list(c.drminfo.labels) != labels or not eqnan(c.ext, ext) or list(c.maxcase) != ml:
+            msgs.append("form_extreme modified event %s while expanding its rows" % k)
+    return msgs
+
+
+def shard_formrows(sh):
+    res = Result()
+    for n in (2, 3):
+        for ids in itertools.permutations(range(len(ROWSETS16)), n):
+            for with_x, doappend in itertools.product((True, False), (0, 1, 2, 3)):
+                msgs = check_form_rows(ids, with_x, doappend)
+                res.transitions += n
+                res.traces += 1
+                res.ev("form-rows/n%d/da%d/x%d" % (n, doappend, with_x))
+                for m in msgs:
+                    res.viol({"part": "formrows", "ids": list(ids), "with_x": with_x, "doappend": doappend}, m, kind="formrows-" + m.split(":")[0][-30:])
+    res.sample({"part": "formrows"})
+    return res
+
+
 def shard_form(sh):
     res = Result()
     seen = set()
@@ -861,12 +959,13 @@ def shards(tier, seed):
         out.append(dict(part="form", nev=nev))
     out.append(dict(part="applyuf", L=2 if q else 3))
     out.append(dict(part="formsrs"))
+    out.append(dict(part="formrows"))
     r = seed % len(out)
     return out[r:] + out[:r]
 
 
 def run_shard(sh):
-    return {"extrema": shard_extrema, "recovery": shard_recovery, "form": shard_form, "applyuf": shard_applyuf, "formsrs": shard_formsrs}[sh["part"]](sh)
+    return {"extrema": shard_extrema, "recovery": shard_recovery, "form": shard_form, "applyuf": shard_applyuf, "formsrs": shard_formsrs, "formrows": shard_formrows}[sh["part"]](sh)
 
 
 def replay(case):
@@ -877,6 +976,8 @@ def replay(case):
         if case["kind"] == "psd":
             return check_psd_recovery(tuple(case["seq"]))[0]
         return check_recovery(case["kind"], tuple(case["seq"]))[0]
+    if p == "formrows":
+        return check_form_rows(tuple(case["ids"]), case["with_x"], case["doappend"])
     if p == "form":
         return check_form(tuple(case["ids"]), case["with_x"], case["doappend"], (case["brk"][0], case["brk"][1]), case["order"])[0]
     if p == "applyuf":
